@@ -1024,6 +1024,18 @@ def list_program(rng, max_points=1 << 12, dyn_fe=False):
             st.append(["uvec", [["l"], ["m"]]])
         elif second is not None:
             st.append(["fe", ["m"], "both", [["e", ["b", r.choice(["<=", "!="]), ["it"], ["el", ["l"], ["idx"]]]]]])
+    if kind == "fixed" and L["sz"] >= 1 and r.random() < 0.2:
+        # part-select of the element inside the foreach; a condition on a part-select of a non-random scalar
+        hi = ew - 1
+        lo_ = r.randint(0, hi)
+        body = [["e", ["b", r.choice(["==", "!=", "<="]), ["psit", hi, lo_, ["l"]], ["c", r.randint(0, (1 << (hi - lo_ + 1)) - 1)]]]]
+        if any(fd["n"] == "k" for fd in fields) and r.random() < 0.6:
+            body = [["if", [[["b", "==", ["ps", ["k"], 1, 0], ["c", r.randint(0, 3)]], body]],
+                     [["e", ["b", "!=", ["it"], lit()]]] if r.random() < 0.5 else None]]
+        st.append(["fe", ["l"], "both", body])
+    if second is not None and r.random() < 0.4:
+        # unique over the elements of two lists at the same index
+        st.append(["fe", ["l"], "idx", [["uniq", [["el", ["l"], ["idx"]], ["el", ["m"], ["idx"]]]]]])
     if kind == "fixed" and L["sz"] >= 1 and r.random() < 0.25:
         # a non-random list used as a per-element mask: the condition inside the foreach names mk[i]
         mk = {"n": "mk", "k": "list", "ek": "int", "w": 1, "s": False, "r": False, "rsz": False,
